@@ -168,7 +168,7 @@ class C10(core.PropBase):
     theorem_for_mismatch = "C10_iff / C10_result / C10_error (model = implementation correspondence)"
     assumptions = [
         "definitions enter the model as DECODED by decode_job_template (coercions of the decoder are C01's); the default enters as the text str(param.default)",
-        "value strings of INT/FLOAT parameters are drawn from the numeral domain of Numerals.v (no non-ASCII decimal digits, < 4300 digits, decimal exponents of at most 3 digits); Numerals.v is compared with Python's int()/Decimal() on every run",
+        "value strings of INT/FLOAT parameters are drawn from the numeral domain of Numerals.v (every Unicode decimal digit is read as Python reads it; < 4300 digits, decimal exponents of at most 3 digits); Numerals.v is compared with Python's int()/Decimal() on every run",
         "PATH strings are '', absolute or plain relative names; joining is concatenation with /c or /t there (checked against pathlib for every string used); the general case is C11",
         "CPython 3.12 / libmpdec as installed",
     ]
